@@ -631,6 +631,20 @@ theorem switch_agrees_operand (dbg : Bool) (v : IrValue) (x : U32) (branches : L
   rw [hb]
   exact switch_agrees dbg _ v _ branches default s (by rw [hx]; rfl) hs
 
+/-! ### access widths -/
+
+/-- **Access width.** For every IR type the evaluator's `Read` takes `IrType::bytes` bytes (generated
+    from value.rs) — exactly the width of the `load` the code generator emits for that type
+    (`cranelift_type`, generated from codegen/mod.rs).  (Both `Read` arms are shape-checked: the
+    evaluator reads `ty.bytes()` bytes and decodes them with `from_slice(ty, …)`, the code generator
+    loads a `cranelift_type(ty)`.) -/
+theorem read_width_is_load_width (dbg : Bool) (ty : IrType) :
+    ∃ n c, IrType.bytes dbg ty = .ok n ∧ Gen.OpTables.cranelift_type dbg ty = .ok c ∧ 8 * n = c.bits := by
+  cases ty <;> exact ⟨_, _, rfl, rfl, by decide⟩
+
+/-- non-vacuity: a `u16` is read as 2 bytes and loaded as an `i16`. -/
+example : IrType.bytes true .U16 = .ok 2 ∧ Gen.OpTables.cranelift_type true .U16 = .ok .I16 := by decide
+
 /-! ### calls: arguments are bound positionally, like the CLIF call -/
 
 /-- **Call argument passing.** The evaluator's `Call` arm binds the callee's i-th parameter to the
